@@ -179,7 +179,7 @@ def is_scalar_ty(ty):
 # ---------------------------------------------------------------------------------------
 
 class Frame:
-    __slots__ = ('fn', 'body', 'locals', 'bb', 'genv', 'dest', 'ret_target', 'entered_loops', 'is_promoted', 'depth', 'loop_summaries')
+    __slots__ = ('fn', 'body', 'locals', 'bb', 'genv', 'dest', 'ret_target', 'entered_loops', 'is_promoted', 'depth', 'loop_summaries', 'concrete_loops')
 
     def __init__(self, fn, body, genv, depth):
         self.fn = fn
@@ -193,6 +193,7 @@ class Frame:
         self.is_promoted = False
         self.depth = depth
         self.loop_summaries = {}   # loop head -> [(place json, term, ty)] applied when the loop is left
+        self.concrete_loops = {}   # loop head -> iterations executed so far (loops over short constant-length sequences are unrolled)
 
 
 class Obligation:
@@ -238,6 +239,7 @@ class State:
             nf.entered_loops = set(f.entered_loops)
             nf.is_promoted = f.is_promoted
             nf.loop_summaries = dict(f.loop_summaries)
+            nf.concrete_loops = dict(f.concrete_loops)
             s.frames.append(nf)
         s.ctx = self.ctx.copy()
         s.obligations = list(self.obligations)
@@ -1130,15 +1132,71 @@ class Interp:
                         self.write_place(st, fr, pl, Num(term, ty))
             if target in cfg.loops:
                 if target in fr.entered_loops:
+                    if target in fr.concrete_loops and fr.concrete_loops[target] < 10:
+                        fr.concrete_loops[target] += 1
+                        fr.bb = target
+                        return None
                     st.status = 'loopback'
                     return 'stop'
                 fr.entered_loops.add(target)
+                if self.loop_hook is None and self.short_concrete_loop(st, fr, cfg, target):
+                    fr.concrete_loops[target] = 0
+                    fr.bb = target
+                    return None
                 if self.loop_hook is not None:
                     self.loop_hook(self, st, fr, cfg, target)
                 else:
                     self.havoc_loop(st, fr, cfg, target)
         fr.bb = target
         return None
+
+    def short_concrete_loop(self, st, fr, cfg, head):
+        """a loop without inner loops that is driven by an iterator over a sequence of known length <= 4 is unrolled
+        instead of abstracted (exact effect of e.g. `for n in &notes[len-1..]`)"""
+        body = cfg.loops[head]
+        if any(h != head and h in body for h in cfg.loops):
+            return False
+        for b in sorted(body):
+            t = fr.fn['blocks'][b]['term']
+            if t['k'] != 'call' or 'def' not in t['callee']:
+                continue
+            if not t['callee']['def'].endswith('Iterator::next') or not t['args']:
+                continue
+            a0 = t['args'][0]
+            if a0['k'] not in ('copy', 'move'):
+                continue
+            # the argument is a temporary `&mut iter` created in the loop: look through the assignment to it
+            pl = a0['place']
+            src = None
+            for bb in sorted(body):
+                for s_ in fr.fn['blocks'][bb]['stmts']:
+                    if s_['k'] == 'assign' and s_['place'] == pl and s_['rv']['k'] == 'ref':
+                        src = s_['rv']['place']
+            if src is None:
+                continue
+            # look through re-borrows `_a = &mut _iter; _b = &mut *_a`
+            for _ in range(4):
+                if len(src['p']) == 1 and src['p'][0]['k'] == 'deref':
+                    inner = None
+                    for bb in sorted(body):
+                        for s_ in fr.fn['blocks'][bb]['stmts']:
+                            if s_['k'] == 'assign' and s_['place'] == {'l': src['l'], 'p': []} and s_['rv']['k'] == 'ref':
+                                inner = s_['rv']['place']
+                    if inner is None:
+                        break
+                    src = inner
+                else:
+                    break
+            try:
+                v = self.read_place(st, fr, src)
+            except InterpError:
+                return False
+            if isinstance(v, ContV) and v.kind in ('slice_iter', 'vec_iter') and v.len is not None and not v.extra.get('havocked'):
+                n = v.len.const_value()
+                if n is not None and n <= 4:
+                    return True
+            return False
+        return False
 
     def havoc_loop(self, st, fr, cfg, head):
         places = self.loop_places(st, fr, cfg, head)
@@ -1656,6 +1714,17 @@ class Interp:
                 self.models_used.add(path)
                 out = m(self, st, fr, t, args, ga)
                 return self.finish_model(st, fr, t, out)
+        # lossless primitive conversions  <T as From<U>>::from  for numeric T, U: the value is unchanged
+        import re as _re
+        for path, ga in cands:
+            mm = _re.match(r'^core::convert::num::<impl core::convert::From<(\w+)> for (\w+)>::from$', path)
+            if mm and len(args) == 1 and isinstance(args[0], Num):
+                self.models_used.add('core::convert::num::From (numeric widening)')
+                return self.finish_model(st, fr, t, Num(args[0].term, mm.group(2)))
+            if mm and len(args) == 1 and isinstance(args[0], BoolV):
+                c = args[0].b.value()
+                v = Num(Poly.const(1 if c else 0), mm.group(2)) if c is not None else Num(Poly.atom(('ite', args[0].b, ONE, ZERO)), mm.group(2))
+                return self.finish_model(st, fr, t, v)
         # unknown external callee: fail closed is the rule's business; record it
         self.stats['unmodelled'] += 1
         self.unmodelled.add(cands[0][0])
@@ -1681,6 +1750,15 @@ class Interp:
             st.status = 'panic'
             st.panic_info = out[1]
             return None
+        if isinstance(out, tuple) and out and out[0] == 'states':
+            # the model advanced forked copies of the state itself (e.g. an unrolled for_each over a branching closure)
+            succs = []
+            for s2, val in out[1]:
+                f2 = s2.frames[-1]
+                self.write_place(s2, f2, t['dest'], val)
+                self.jump(s2, f2, t['target'])
+                succs.append(s2)
+            return succs
         if isinstance(out, tuple) and out and out[0] == 'fork':
             succs = []
             for cond, val in out[1]:
